@@ -305,6 +305,12 @@ class Gen:
 
     # ------------------------------------------------------------- string expressions
     def str_lit(self):
+        if self.max_str >= 40 and self.chance(1, 12):
+            # literals longer than BASIC09's default 32 bytes, and up to the 255 Color BASIC allows
+            n = self.choice([33, 40, 80, 81, 255])
+            if n <= self.max_str:
+                self.labels.hit("long_string_literal")
+                return ["str", ("LONG TEXT 0123456789 " * 13)[:n]]
         return ["str", self.choice(["", "A", "B", "AB", "BA", "A B", " ", "HELLO", "ABAB", "x", "BASIC09", "A,B", "IT'S"])]
 
     def string(self, depth, plain=False):
